@@ -150,7 +150,14 @@ func (c *ntlmContext) authenticate(am *ntlm.AuthenticateMessage, r *auth.NtlmRes
         if c.session == nil {
 		return errors.New(fmt.Sprintf("NTLM Authenticate requires active session: first call negotioate"))
         }
-        
+
+	// A challenge can be answered once. The server session caches the response
+	// keys of the first user it verifies, so a second authenticate message on
+	// the same session would be checked against that user's password even if
+	// it names somebody else.
+	session := c.session
+	c.session = nil
+
         username := am.UserName.String()
         password := c.h.Database.GetPassword (username)
         if password == "" {
@@ -158,9 +165,9 @@ func (c *ntlmContext) authenticate(am *ntlm.AuthenticateMessage, r *auth.NtlmRes
 		return nil
         }
         
-        c.session.SetUserInfo(username,password,"")
+        session.SetUserInfo(username,password,"")
 
-        err := c.session.ProcessAuthenticateMessage(am)
+        err := session.ProcessAuthenticateMessage(am)
         if err != nil {
 		log.Printf("Failed to process NTLM authenticate message: %s", err)
 		return nil
